@@ -187,7 +187,7 @@ func genKDStruct(g *vlib.G) {
 				}
 				key := fmt.Sprintf("%s order=%d bulk=%d ins=%d", set.name, oi, j, n-j)
 				g.Case(key, func(t *vlib.T) {
-					st := &kdRunStats{}
+					st := &kdRunStats{randomShapes: true}
 					reps, esc := attempts(group, key, 2)
 					for rep := 0; rep < reps && !t.Failed() && !(esc && st.bs.knownSkips > 0); rep++ {
 						for _, bnd := range []bool{false, true} {
@@ -263,7 +263,7 @@ func genVPStruct(g *vlib.G) {
 				}
 				key := fmt.Sprintf("%s order=%d effort=%d", set.name, oi, eff)
 				g.Case(key, func(t *vlib.T) {
-					st := &vpStats{}
+					st := &vpStats{randomShapes: true}
 					lite := knownOnly[group+"\x00"+key] && !replaying()
 					qs := sampleQueries(pts, set.d, 60)
 					for s := 0; s < 2 && !t.Failed(); s++ {
